@@ -20,6 +20,8 @@ class CallMixin:
             c = fresh(h, term.sort())
             p.assume(c == term)
             return c
+        if isinstance(v.ty, T.ObjMap):
+            return self.om_named(v, p, hint)
         if isinstance(v.ty, T.Map):
             return T.sv_map(v.ty.k, v.ty.v, nm(v.dom, hint + "_dom"), nm(v.val, hint + "_val"))
         if isinstance(v.ty, (T.Bag, T.Set)):
@@ -30,6 +32,67 @@ class CallMixin:
                 r.uset, r.uidx = v.uset, v.uidx
             return r
         return v
+
+    # ------------------------------------------------------------------ dict of objects (Map[K, Obj[C]])
+    def _om_field_sorts(self, ty):
+        lay = self.reg.layouts[ty.cls]
+        out = {}
+        for f, ft in lay.fields.items():
+            if isinstance(ft, T.Map):
+                out[f] = ("m", z3.ArraySort(ty.k.sort(), z3.ArraySort(ft.k.sort(), T.B)), z3.ArraySort(ty.k.sort(), z3.ArraySort(ft.k.sort(), ft.v.sort())), ft)
+            elif ft.scalar and ft.sort() is not None:
+                out[f] = ("s", z3.ArraySort(ty.k.sort(), ft.sort()), None, ft)
+            else:
+                raise Unsupported(f"dict of {ty.cls} objects: field {f} of type {ft}")
+        return out
+
+    def om_fresh(self, ty, hint, empty=False):
+        lifted = {}
+        for f, (kind, s1, s2, ft) in self._om_field_sorts(ty).items():
+            lifted[f] = (fresh(f"{hint}_{f}_dom", s1), fresh(f"{hint}_{f}_val", s2)) if kind == "m" else fresh(f"{hint}_{f}", s1)
+        dom = z3.K(ty.k.sort(), z3.BoolVal(False)) if empty else fresh(hint + "_dom", z3.ArraySort(ty.k.sort(), T.B))
+        return SV(ty, dom=dom, lifted=lifted)
+
+    def om_get(self, om, key):
+        fields = {}
+        for f, (kind, s1, s2, ft) in self._om_field_sorts(om.ty).items():
+            if kind == "m":
+                fields[f] = T.sv_map(ft.k, ft.v, om.lifted[f][0][key], om.lifted[f][1][key])
+            else:
+                fields[f] = T.scalar(ft, om.lifted[f][key])
+        return T.sv_obj(om.ty.cls, fields)
+
+    def om_set(self, om, key, obj):
+        lifted = {}
+        for f, (kind, s1, s2, ft) in self._om_field_sorts(om.ty).items():
+            v = obj.fields[f]
+            if kind == "m":
+                lifted[f] = (z3.Store(om.lifted[f][0], key, v.dom), z3.Store(om.lifted[f][1], key, v.val))
+            else:
+                lifted[f] = z3.Store(om.lifted[f], key, v.t)
+        return SV(om.ty, dom=z3.Store(om.dom, key, True), lifted=lifted)
+
+    def om_named(self, om, p, hint):
+        """Bind the lifted arrays to fresh constants (patterns may not contain store terms)."""
+        def nm(term, h):
+            if z3.is_const(term) and term.decl().kind() == z3.Z3_OP_UNINTERPRETED:
+                return term
+            c = fresh(h, term.sort())
+            p.assume(c == term)
+            return c
+        lifted = {f: ((nm(v[0], f"{hint}_{f}_dom"), nm(v[1], f"{hint}_{f}_val")) if isinstance(v, tuple) else nm(v, f"{hint}_{f}")) for f, v in om.lifted.items()}
+        return SV(om.ty, dom=nm(om.dom, hint + "_dom"), lifted=lifted)
+
+    def om_writeback(self, obj, p):
+        """An object read out of a dict of objects (d[k], or the value variable of `for k, v in d.items()`) was mutated: update the dict."""
+        ref = getattr(obj, "ref", None)
+        if ref is None:
+            return
+        name, key = ref
+        om = p.env.get(name)
+        if om is None or not isinstance(om.ty, T.ObjMap):
+            raise Unsupported("object alias into a dict that is no longer in scope")
+        p.env[name] = self.om_named(self.om_set(om, key, obj), p, name)
 
     # ------------------------------------------------------------------ stores
     def store(self, target, v, p):
@@ -60,6 +123,13 @@ class CallMixin:
         if isinstance(target, ast.Subscript):
             base = self.ev(target.value, p)
             key = self.ev(target.slice, p)
+            if base.ty == T.EMPTYDICT and isinstance(v.ty, T.Obj) and isinstance(target.value, ast.Name) and self.cur and target.value.id in self.cur.locals:
+                base = self.coerce(base, self.parse_ty(self.cur.locals[target.value.id]))
+            if isinstance(base.ty, T.ObjMap):
+                if not (isinstance(v.ty, T.Obj) and v.ty.cls == base.ty.cls):
+                    raise Unsupported(f"store of {v.ty} into {base.ty}")
+                k = self.coerce(key, base.ty.k)
+                return self.store(target.value, self.om_set(base, k.t, v), p)
             if isinstance(base.ty, T.Map):
                 k = self.coerce(key, base.ty.k)
                 val = self.coerce(v, base.ty.v)
@@ -482,6 +552,10 @@ class CallMixin:
                 return T.sv_bool(z3.ForAll([x], z3.Implies(recv.t[x], o.t[x]), patterns=[recv.t[x]]))
             if name == "copy":
                 return recv
+        if isinstance(rt, T.ObjMap):
+            if name == "keys":
+                return T.scalar(T.Set(rt.k), recv.dom)
+            raise Unsupported(f"method {name} on {rt}")
         if isinstance(rt, T.Map):
             if name == "keys":
                 return T.scalar(T.Set(rt.k), recv.dom)
